@@ -47,6 +47,7 @@ type isoDB struct {
 }
 
 type isoRun struct {
+	memdir      bool                     // the instance under test runs over cacheleveldown's in-memory directory, not the simulated cache
 	remAccepted bool                     // an entry of the remote writer has been merged into some database of the instance
 	shared      *orbitdb.CreateDBOptions // when set, the caller reuses this one value for every Open
 	in          *IsolationInput
@@ -72,7 +73,11 @@ var isoTypes = []string{"kv", "log", "doc", "kv"}
 func (r *isoRun) setup(tag string) error {
 	r.w = sim.NewWorld()
 	var err error
-	if r.inst, err = r.w.AddPeer(tag + "-inst").Start(""); err != nil {
+	dir := ""
+	if r.memdir {
+		dir = ":memory:" // the instance's own cache manager (cache/cacheleveldown) in its default, in-memory mode
+	}
+	if r.inst, err = r.w.AddPeer(tag + "-inst").Start(dir); err != nil {
 		return err
 	}
 	if r.rem, err = r.w.AddPeer(tag + "-rem").Start(""); err != nil {
@@ -103,6 +108,14 @@ func (r *isoRun) setup(tag string) error {
 		dbname := fmt.Sprintf("%s-%s", tag, name)
 		if i == 2 {
 			dbname = fmt.Sprintf("%s-%s", tag, r.in.DBs[0])
+		}
+		if first := r.dbs[r.in.DBs[0]]; i == 3 && r.shared == nil && !d.closed && !first.closed && first.stype == d.stype {
+			// the fourth database is the manifest of the first one opened under another path: another address, another
+			// log, another topic, another cache
+			parts := strings.Split(first.local.Addr, "/")
+			parts[len(parts)-1] = dbname
+			dbname = strings.Join(parts, "/")
+			opts = nil
 		}
 		if d.local, err = r.inst.Open(dbname, realType(d.stype), opts); err != nil {
 			return err
@@ -164,7 +177,7 @@ func (r *isoRun) record(e interface{}) {
 	case stores.EventReplicateProgress:
 		addr, desc = evt.Address.String(), "replicate.progress carries "+entryIDs([]ipfslog.Entry{evt.Entry})
 	case stores.EventLoad:
-		addr, desc = evt.Address.String(), "load"
+		addr, desc = evt.Address.String(), "load carries "+entryIDs(evt.Heads)
 	case stores.EventLoadProgress:
 		addr, desc = evt.Address.String(), "load.progress"
 	case stores.EventReady:
@@ -429,6 +442,7 @@ func (r *isoRun) run(b Behaviour, idx int) {
 	if idx%2 == 1 {
 		r.shared = &orbitdb.CreateDBOptions{}
 	}
+	r.memdir = strings.HasPrefix(b.ID, "one-root-two-paths") || idx%4 == 2
 	if err := r.setup(fmt.Sprintf("iso%d", idx)); err != nil {
 		r.res.Inconclusive = append(r.res.Inconclusive, b.ID+": setup: "+err.Error())
 		return
